@@ -33,6 +33,8 @@ pub enum RespFraming {
     Close,
     /// chunked with a trailer section after the last chunk (RFC 9112 7.1.2)
     ChunkedTrailers(Vec<usize>, Vec<(String, String)>),
+    /// a Content-Length that is not the length of what follows (the host sends its body and closes)
+    LengthDeclared(u64),
 }
 
 #[derive(Clone, Debug)]
@@ -121,6 +123,12 @@ impl ResponseSpec {
                     }
                     enc.extend_from_slice(b"\r\n");
                     out.extend_from_slice(&enc);
+                }
+            }
+            RespFraming::LengthDeclared(n) => {
+                out.extend_from_slice(format!("Content-Length: {}\r\n\r\n", n).as_bytes());
+                if !bodyless {
+                    out.extend_from_slice(&self.body);
                 }
             }
             RespFraming::Close => {
@@ -337,7 +345,7 @@ fn serve_conn(
             }
         }
         let _ = s.flush();
-        if matches!(spec.framing, RespFraming::Close) || spec.close_after {
+        if matches!(spec.framing, RespFraming::Close | RespFraming::LengthDeclared(_)) || spec.close_after {
             let _ = s.shutdown(std::net::Shutdown::Both);
             return;
         }
